@@ -82,7 +82,13 @@ fn random(a: &Args) {
         let variant = if rng.gen_bool(0.5) { Variant::identity(&res) } else { Variant::random(&res, &mut rng) };
         let gated = rng.gen_bool(gated_share);
         #[cfg(feature = "parallel")]
-        let p = if gated { gate_pool.clone() } else { small_pools.choose(&mut rng).unwrap().clone() };
+        let p = if rng.gen_bool(a.num("pool1", 0.05)) {
+            small_pools[0].clone() // exactly one worker
+        } else if gated {
+            gate_pool.clone()
+        } else {
+            small_pools.choose(&mut rng).unwrap().clone()
+        };
         #[cfg(not(feature = "parallel"))]
         let p = ();
         let mut r = record_registration_pool(&prog, variant, k + 1, 0, false, p);
@@ -311,7 +317,9 @@ fn async_cmd(a: &Args) {
         // now and then an ordinary top-level system panics inside the background job
         let mut panics = Vec::new();
         if rng.gen_bool(a.num("ppanic", 0.0)) {
-            let cand: Vec<usize> = s.rec.sys.iter().filter(|x| x.kind == "plain" && x.builder == s.top && x.addr != 0).map(|x| x.gid).collect();
+            // an ordinary system (poisons the job) or a thread-local one (panics inside wait, once)
+            let want = if rng.gen_bool(0.5) { "plain" } else { "tl" };
+            let cand: Vec<usize> = s.rec.sys.iter().filter(|x| x.kind == want && x.builder == s.top && x.addr != 0).map(|x| x.gid).collect();
             if let Some(g) = cand.choose(&mut rng) {
                 panics.push(*g);
             }
